@@ -90,11 +90,11 @@ where
     T: Piece,
     T::IntegralOf: Nums + ValueLevel + Translate + Copy + PartialEq,
 {
-    run_with::<T>(ends, cx, ks, None)
+    run_with::<T>(ends, cx, ks, None, None)
 }
 
 /// `over`: the pieces' coefficient vectors given by the caller instead of chosen here
-fn run_with<T>(ends: &[f64], cx: &mut Cx, ks: usize, over: Option<&[Vec<f64>]>) -> Verdict
+fn run_with<T>(ends: &[f64], cx: &mut Cx, ks: usize, over: Option<&[Vec<f64>]>, kx_over: Option<f64>) -> Verdict
 where
     T: Piece,
     T::IntegralOf: Nums + ValueLevel + Translate + Copy + PartialEq,
@@ -136,6 +136,7 @@ where
         5 => hi,
         _ => hi + 1.5,
     };
+    let kx = kx_over.unwrap_or(kx);
     // k0.y: alphabet, or on / next to the first piece's unshifted antiderivative at k0.x
     let ky = match ks % 4 {
         0 => 0.0,
@@ -197,6 +198,9 @@ where
         let mut variants: Vec<(&'static str, Vec<Segment<T::IntegralOf>>)> = vec![];
         variants.push(("integral_iter_ref over filter(|_| true)", Segment::integral_iter_ref(f.segments.iter().filter(|_| true), k0).collect()));
         variants.push(("integral_iter over filter(|_| true)", Segment::integral_iter(f.segments.clone().into_iter().filter(|_| true), k0).collect()));
+        // ... and whatever the allocation history of the vector handed over by value (spare capacity, truncated, grown by push)
+        variants.push(("integral_iter over a vector with spare capacity", Segment::integral_iter(with_slack(&f.segments, 1 + ks % (SLACK_MODES - 1)), k0).collect()));
+        variants.push(("Piecewise::integral of a function whose vector has spare capacity", pw_with_slack(&f, 1 + (ks + 1) % (SLACK_MODES - 1)).integral(k0).segments));
         {
             let mut src = f.segments.clone().into_iter();
             variants.push(("integral_iter over iter::from_fn", Segment::integral_iter(std::iter::from_fn(move || src.next()), k0).collect()));
@@ -467,18 +471,54 @@ pub fn check(thorough: bool, _seed: u64) -> Check {
                 srcs.push(VEC_B[..n].to_vec());
             }
             let ks = [0usize, 6, 9, 23][cx.choose(4)];
-            macro_rules! go { ($($i:literal => $t:ty),*) => { match unit { $($i => run_with::<$t>(&ends, cx, ks, Some(&srcs)),)* _ => unreachable!() } }; }
+            macro_rules! go { ($($i:literal => $t:ty),*) => { match unit { $($i => run_with::<$t>(&ends, cx, ks, Some(&srcs), None),)* _ => unreachable!() } }; }
             go!(0 => Poly0, 1 => Poly1, 2 => Poly2, 3 => Poly3, 4 => Poly4, 5 => Poly5, 6 => Poly6, 7 => Poly7,
                 8 => Log<Poly0>, 9 => Log<Poly1>, 10 => Log<Poly2>, 11 => Log<Poly3>, 12 => Log<Poly4>, 13 => Log<Poly5>, 14 => Log<Poly6>, 15 => Log<Poly7>, 16 => Log<Poly8>)
         }),
         classes: (0..8).map(|i| (["k0.x_inside_first_piece", "k0.x_at_first_end", "k0.x_beyond_first_end", "k0.x_at_second_end", "k0.x_at_third_end", "k0.x_at_last_end", "k0.x_beyond_last_end", "duplicate_breakpoints"][i], false)).collect(),
         bounds: json!({"piece_types": "Poly0..Poly7, Log<Poly0>..Log<Poly8>", "first piece": "every coefficient vector in {0,1,4,-2,0.25}^n for n <= 5 coefficients; {0,1,-2} on the 7 highest lanes beyond", "shapes": "[3] and [1.5,4] (second piece fixed)", "k0": "4 knot positions"}),
     };
+    // anchors far away from the next breakpoint: k0.x (or a breakpoint) 10^9 .. 10^16 times larger in magnitude than the breakpoint
+    // that follows. The first piece's coefficients are scaled so that its terms stay of order one over that span (c_i ~ X^-(i+1)),
+    // the later pieces are of order one: a knot that is threaded to the wrong abscissa shows at full size in the later pieces.
+    let far = Phase {
+        name: "far-anchors",
+        units: 4,
+        split: 1,
+        body: Box::new(move |unit, cx| {
+            let big = [1e16, 3e15, 1e12, 1e9][cx.choose(4)];
+            let layout = cx.choose(3);
+            // 0: k0.x = -big before [0.5, 2, 3];  1: breakpoints [-big, 0.25, 2] with k0.x = -big;  2: breakpoints [-2 big, -big, 0.5, 2], k0.x inside the first piece
+            let (ends, kx): (Vec<f64>, f64) = match layout {
+                0 => (vec![0.5, 2.0, 3.0], -big),
+                1 => (vec![-big, 0.25, 2.0], -big),
+                _ => (vec![-2.0 * big, -big, 0.5, 2.0], -2.5 * big),
+            };
+            let n = unit + 1; // Poly0..Poly3
+            let far_piece: Vec<f64> = (0..n).map(|i| VEC_B[i] / big.powi(i as i32 + 1)).collect();
+            let mut srcs: Vec<Vec<f64>> = vec![];
+            for (i, _) in ends.iter().enumerate() {
+                // pieces that live on the far side take the scaled coefficients, the others order-one coefficients
+                let on_far_side = match layout { 0 => i == 0, 1 => i <= 1, _ => i <= 2 };
+                srcs.push(if on_far_side { far_piece.clone() } else { VEC_C[..n].iter().map(|c| c * (1.0 + 0.25 * i as f64)).collect() });
+            }
+            let ks = [0usize, 1, 2][cx.choose(3)]; // k0.y in {0, 2.5, -1e3}
+            match unit {
+                0 => run_with::<Poly0>(&ends, cx, ks, Some(&srcs), Some(kx)),
+                1 => run_with::<Poly1>(&ends, cx, ks, Some(&srcs), Some(kx)),
+                2 => run_with::<Poly2>(&ends, cx, ks, Some(&srcs), Some(kx)),
+                _ => run_with::<Poly3>(&ends, cx, ks, Some(&srcs), Some(kx)),
+            }
+        }),
+        classes: (0..8).map(|i| (["k0.x_inside_first_piece", "k0.x_at_first_end", "k0.x_beyond_first_end", "k0.x_at_second_end", "k0.x_at_third_end", "k0.x_at_last_end", "k0.x_beyond_last_end", "duplicate_breakpoints"][i], false)).collect(),
+        bounds: json!({"piece_types": "Poly0..Poly3", "layouts": "k0.x = -X before breakpoints [0.5,2,3]; breakpoints [-X,0.25,2] with k0.x = -X; breakpoints [-2X,-X,0.5,2] with k0.x = -2.5X; X in {1e16, 3e15, 1e12, 1e9}",
+            "coefficients": "pieces on the far side scaled so that c_i X^(i+1) is of order one, the others of order one", "k0.y": "{0, 2.5, -1e3}"}),
+    };
     Check {
         id: "C11",
         rule: "choice tree: (piece type, shape) unit x k0 x one coefficient vector per piece (the running knot threaded from piece to piece is the state, each piece one step); each leaf runs the real Piecewise::integral, indefinite, integral_iter_ref and integral_iter; non-trivial = >=3 pieces or k0.x strictly inside the first piece".into(),
         assumptions: vec!["f64::ln within 1 ulp (propagated into the tolerance)".into(), "tolerance 2^-40 * sum of the magnitudes of the terms of the pieces involved (accumulated constants included)".into()],
-        phases: vec![poly, log, bigp, cube],
+        phases: vec![poly, log, bigp, cube, far],
         extra: Default::default(),
         controls: vec![],
     }
